@@ -1242,6 +1242,11 @@ func (st *Runtime) evalPipeCallExpression(baseExpr reflect.Value, args CallArgs,
 	if len(returns) == 0 {
 		return reflect.Value{}, nil
 	}
+	if last := returns[len(returns)-1]; len(returns) > 1 && last.Kind() == reflect.Interface && !last.IsNil() {
+		if err, ok := last.Interface().(error); ok {
+			return reflect.Value{}, err // the function reported an error as its last result
+		}
+	}
 
 	return returns[0], nil
 }
